@@ -18,7 +18,7 @@ sed -i "s|/repo/|$WT/|g" $H/Cargo.toml
 rc_all=0
 for P in "$@"; do
   echo "=== $P against $(basename $PATCH)"
-  ( cd "$VERIF" && RV_HARNESS=$H RV_OUT=$OUT RV_TARGET=target VERIF_SEED=${VERIF_SEED:-1} timeout 3000 python3 bin/check.py $P --tier ${TIER:-quick} 2>&1 | grep -E "VIOLATION|KNOWN-FINDING|INFRASTRUCTURE|^\[$P\]" | cut -c1-300 | head -12 )
+  ( cd "$VERIF" && CARGO_INCREMENTAL=0 RV_HARNESS=$H RV_OUT=$OUT RV_TARGET=target VERIF_SEED=${VERIF_SEED:-1} timeout 3000 python3 bin/check.py $P --tier ${TIER:-quick} 2>&1 | tee /tmp/try_mutation_last_$P.log | grep -E "VIOLATION|KNOWN-FINDING|INFRASTRUCTURE|^\[$P\]" | cut -c1-300 | head -12 )
   # first replay, abbreviated
   f=$(ls $OUT/replays/$P/* 2>/dev/null | head -1)
   [ -n "$f" ] && { echo "--- first replay:"; head -c 1500 "$f"; echo; grep -h "minimised_scenario\"" $OUT/replays/$P/* | head -2 | cut -c1-600; }
